@@ -4,7 +4,7 @@
    External code enters as the hypotheses written out in each statement:
      inflate (deflate b) = Some b   (Go compress/gzip),
      json_norm (encoding/json Unmarshal then Marshal of a command body). *)
-From TX Require Import Model.Framing Model.WsConn Proofs.Framing Proofs.WsConn Proofs.SideC01 Gen.C01.
+From TX Require Import Model.Framing Model.WsConn Model.FramingLock Proofs.Framing Proofs.WsConn Proofs.FramingLock Proofs.SideC01 Gen.C01.
 
 (* (1)+(2) every list of writer-accepted packets, written with any per-packet compression choice,
    is read back as exactly those packets (type byte with the writer's flag, identical body, consumed
@@ -75,6 +75,27 @@ Proof.
   exact (ws_roundtrip MaxPacketBodySize deflate inflate json_norm Hid max_body_fits_u32 cps msgs).
 Qed.
 Print Assumptions C01_roundtrip_over_websocket.
+
+(* concurrent writers: a packet is several transport writes made under writeLock.  For ANY number of callers,
+   ANY packets and ANY schedule of lock operations and transport writes, the wire is the concatenation of complete
+   packet encodings (in lock order) plus a prefix of the ONE packet in progress — so the reader, which the
+   theorems above decode whole encodings for, never sees another caller's bytes inside a packet. *)
+Theorem C01_locked_writers_never_interleave :
+  forall (pkts : list (list (list (list byte)))) (sched : list nat),
+  let s := run _ _ wstep (wsh0, map (winit true) pkts) sched in
+  (lock (fst s) = false -> wire (fst s) = concat (g_done (fst s))) /\
+  (lock (fst s) = true -> exists t, In t (snd s) /\ wire (fst s) = concat (g_done (fst s)) ++ w_written t /\
+                                    w_written t ++ concat (w_cur t) = w_pkt t).
+Proof. exact locked_writers_never_interleave. Qed.
+Print Assumptions C01_locked_writers_never_interleave.
+
+(* ... and a caller that skips the lock (e.g. a heartbeat fast path) puts its byte inside another packet *)
+Theorem C01_unlocked_writer_interleaves_refuted :
+  exists sched,
+    let s := run _ _ wstep (wsh0, [winit true [[[34%N]; [0;0;0;1]%N; [7%N]]]; winit false [[[3%N]]]]) sched in
+    wire (fst s) = [34; 3; 0; 0; 0; 1; 7]%N /\ g_done (fst s) = [[3%N]; [34; 0; 0; 0; 1; 7]%N].
+Proof. exact unlocked_writer_interleaves_refuted. Qed.
+Print Assumptions C01_unlocked_writer_interleaves_refuted.
 
 (* the two defects of the pinned tree (repaired by fix: commits), kept as refuted statements *)
 Theorem C01_pinned_single_len_read_refuted :
